@@ -136,10 +136,10 @@ func (its *WiredDatatype) checkOptionAndError(ppp *model.PushPullPack) errors.Or
 			case errors.PushPullNoDatatypeToSubscribe:
 				return errors.DatatypeSubscribe.New(its.L(), fmt.Sprintf("%v", errOp.GetPushPullError().Msg))
 			}
-			panic("Not implemented yet")
-		} else {
-			panic("Not implemented yet")
+			// the other errors leave the datatype as it is; the next sync tries again
+			return errors.ClientSync.New(its.L(), errOp.GetPushPullError().Msg)
 		}
+		return errors.ClientSync.New(its.L(), "error response without an error operation")
 	} else if ppp.GetPushPullPackOption().HasSubscribeBit() && its.state != model.StateOfDatatype_SUBSCRIBED {
 		// (a subscribe response that arrives when the datatype is already subscribed is a stale duplicate;
 		// it must not reset the datatype, and its operations are excluded as duplicates below)
